@@ -8,3 +8,4 @@ func (x *Ctx) internalPrefix(s, p []byte) {}
 
 func (x *Ctx) internalRune(s []byte, r int64) {}
 func (x *Ctx) internalByte(s []byte, c int64) {}
+func (x *Ctx) internalIndex(s, sub []byte)    {}
